@@ -251,3 +251,33 @@ pub proof fn lemma_split_nonempty(ms: Seq<ExprGroup<ActionExpr>>, n: int)
 {
     if n > 0 { lemma_split_nonempty(ms, n - 1); }
 }
+
+// ---------------------------------------------------------------- how one branch of a step is started (C07 / C08 / C09 / C16)
+
+pub open spec fn is_toks(c: Seq<Tok>) -> bool { true }
+
+/// `move || chain` iff the branches are lazy
+pub open spec fn lazy_wrap(lazy: bool, chain: Seq<Tok>) -> Seq<Tok> {
+    if lazy { Seq::<Tok>::empty().push(Tok::Ident("move"@)).push(Tok::Punct('|')).push(Tok::Punct('|')) + chain } else { chain }
+}
+
+/// a branch of a step with ONE active branch is the bare chain (runs on the caller); with several active branches it is
+/// the (possibly lazy) chain, handed - in the spawning kinds - exactly once to the branch's OWN thread builder
+/// `__join_thread_builder_{branch_index}.spawn(..).unwrap()` resp. to the tokio helper `(Box::pin(..))`
+pub open spec fn spawn_wrap(lazy: bool, is_spawn: bool, is_async: bool, multi: bool, branch_index: usize, chain: Seq<Tok>) -> Seq<Tok> {
+    if !multi { chain } else {
+        let c = lazy_wrap(lazy, chain);
+        if !is_spawn { c }
+        else if is_async {
+            Seq::<Tok>::empty() + group(Delim::Brace,
+                (Seq::<Tok>::empty() + seq![Tok::Ident(construct_spawn_tokio_fn_name_spec())])
+                + group(Delim::Paren, Seq::<Tok>::empty().push(Tok::Ident("Box"@)).push(Tok::Punct(':')).push(Tok::Punct(':')).push(Tok::Ident("pin"@))
+                    + group(Delim::Paren, Seq::<Tok>::empty() + c)))
+        } else {
+            Seq::<Tok>::empty() + group(Delim::Brace,
+                (((Seq::<Tok>::empty() + seq![Tok::Ident(construct_thread_builder_name_spec(branch_index))]).push(Tok::Punct('.')).push(Tok::Ident("spawn"@))
+                    + group(Delim::Paren, Seq::<Tok>::empty() + c)).push(Tok::Punct('.')).push(Tok::Ident("unwrap"@)))
+                + group(Delim::Paren, Seq::<Tok>::empty()))
+        }
+    }
+}
